@@ -2,7 +2,10 @@
 (* evaluates the theorems (ASSUME) of Payload.tla and writes the case space *)
 EXTENDS Payload, Json, IOUtils
 (* WHAT = "fixedmask": only the cases in which the metadata carries a fixed mask or the payload is masked (C18) *)
-Sel == IF "WHAT" \in DOMAIN IOEnv /\ IOEnv.WHAT = "fixedmask" THEN {c \in Cases : c.om = "fixed" \/ c.form = "masked"} ELSE Cases
+(* WHAT = "static": only the static links (C20: a static input serves what it fetched first) *)
+Sel == IF "WHAT" \in DOMAIN IOEnv /\ IOEnv.WHAT = "fixedmask" THEN {c \in Cases : c.om = "fixed" \/ c.form = "masked"}
+       ELSE IF "WHAT" \in DOMAIN IOEnv /\ IOEnv.WHAT = "static" THEN {c \in Cases : c.st}
+       ELSE Cases
 ASSUME ndJsonSerialize(IOEnv.OUT_FILE, SetToSeq(Sel))
 VARIABLE x
 Init == x = 0
